@@ -212,16 +212,20 @@ def site_of(case, step):
     return 'init'
 
 
+RULES_N = op('mark_heads_by_rules', preset='negra')
+RULES_P = op('mark_heads_by_rules', preset='ptb')
 RANDOM_PROGRAMS = {
     'C12': [[ROOT_ATTACH]],
-    'C05': CROSS,
+    'C05': CROSS + [[RULES_N, NEGRA, SPLIT, RAISE], [RULES_P, SPLIT, RAISE], [NEGRA, BIN, NEGRA, SPLIT, RAISE]],
     'C13': PUNCTP,
     'C14': [[NEGRA, BIN], [NEGRA, BINB], [COL, UNC], [NEGRA, BIN, COL, UNC]],
-    'C15': [[NEGRA], [op('mark_heads_by_rules', preset='negra')], [op('mark_heads_by_rules', preset='ptb')],
+    'C15': [[NEGRA], [RULES_P, NEGRA], [RULES_N, NEGRA], [NEGRA, RULES_P], [NEGRA, BIN, NEGRA], [RULES_P, RULES_N],
+            [op('mark_heads_by_rules', preset='negra')], [op('mark_heads_by_rules', preset='ptb')],
             [op('mark_heads_by_rules', preset='foo')], [op('mark_heads_by_rules')]],
     'C11': [[PDEL], [PTBS[0]], [PTBS[1]], [PTBS[3]], [INS[5]], [SUB[4]], [SUB[5]], [FILT[4]], [PDEL, INS[2]],
             [op('delete_terminal', pos=1)], [op('delete_terminal', pos=2), PDEL]],
-    'C04': [[ROOT_ATTACH, NEGRA, SPLIT, RAISE, TOP], [ROOT_ATTACH, PVL, NEGRA, BIN, COL, UNC],
+    'C04': [[ROOT_ATTACH, NEGRA, SPLIT, RAISE, TOP], [ROOT_ATTACH, RULES_N, NEGRA, SPLIT, RAISE], [RULES_P, NEGRA, BIN],
+            [NEGRA, BIN, NEGRA, SPLIT, RAISE], [ROOT_ATTACH, PVL, NEGRA, BIN, COL, UNC],
             [PRT, NEGRA, BIN], [ROOT_ATTACH, PSY, PVL, TOP, COL], [NEGRA, SPLIT, RAISE, BIN, COL, UNC],
             [TOP, ROOT_ATTACH, PRT, COL, UNC], [ROOT_ATTACH, PSYR, NEGRA, SPLIT, RAISE, PRT]],
 }
@@ -229,7 +233,7 @@ RANDOM_PROGRAMS = {
 
 def random_cases(prop, tier, seed, mods):
     rnd = random.Random(seed * 7919 + 13)
-    n = 150 if tier == 'quick' else 1500
+    n = 300 if tier == 'quick' else 2500
     out = []
     words = ['w', 'w', 'w', ',', '"', '.', '(', ')']
     tags = ('T', 'PRELS')
